@@ -16,7 +16,7 @@ RULE = ('TCPCL: C01/C09 plan space with extra user calls (queue queries, idle qu
         'a transfer was queued, in progress or awaiting pop; distinct = distinct event-history digests.')
 COMPONENTS = tc.COMPONENTS
 PROBES = ('probe.query_during_transfer', 'probe.idle_true', 'probe.idle_false', 'probe.double_pop', 'wire.SESS_TERM', 'engine.tcpcl', 'engine.udpcl', 'engine.fullstack', 'engine.fullstack_tcp', 'engine.scripted', 'fault.session_restart', 'probe.second_session', 'probe.announced_length_differs',
-          'probe.refuse_after_end', 'probe.refuse_in_progress', 'user.send_file', 'user.pop_file')
+          'probe.refuse_after_end', 'probe.refuse_in_progress', 'user.send_file', 'user.pop_file', 'fault.pop_file_unwritable', 'probe.foreign_sender_listen', 'probe.sender_listen_beyond_int32')
 ASSUMPTIONS = ['as C01', 'marshalling model agrees with dbus-python 1.3.2 on the argument shapes the agents produce (selftest fidelity)']
 CHUNK = 10
 
@@ -89,8 +89,12 @@ def gen(ch, tier):
         from props import C13
         plan = C13.gen(ch, tier)
         plan['scenario'] = 'udpcl_dbus'
-        plan['queries'] = sorted(([1000 * ch.pick('qt', 5000), ch.choice('qside', ('U1', 'U2')), ch.choice('qop', ('rxq', 'pop', 'popdup'))]
+        plan['queries'] = sorted(([1000 * ch.pick('qt', 5000), ch.choice('qside', ('U1', 'U2')), ch.choice('qop', ('rxq', 'pop', 'popdup', 'pop', 'popbadfile'))]
                                   for _ in range(2 + ch.pick('nq', 8))), key=lambda item: item[0])
+        # a foreign peer announces that it listens (extension map: Sender Listen interval in ms as a CBOR uint, optional Sender Node ID
+        # as text); every value reaches the polling_received signal
+        plan['listens'] = sorted(([1000 * ch.pick('lt', 4000), ch.choice('lival', (1000, 60000, 2**31 - 1, 2**31, 2**32 + 5, 2**63, 0)),
+                                   ch.choice('lnode', ('dtn://x/', 'ipn:9.1', '', None))] for _ in range(ch.weighted('nlisten', (2, 2, 1)))), key=lambda item: item[0])
         return plan
     prof = dict(min_one=True, backpressure=True, max_bundles=4, liveness=False, max_queries=10,
                 big=32768, max_segments=200, allow_zero=ch.coin('allow0', 1, 8))
@@ -544,14 +548,34 @@ def _execute_udpcl(plan, sched, verbose):
         ret = har.call(side, 'recv_bundle_get_queue')
         if qop != 'rxq' and isinstance(ret, list) and ret:
             bid = ret[0]
+            if qop == 'popbadfile':
+                # storage fault: the file cannot be created; the pop may fail, the transfer then has to stay queued
+                run.stats['fault.pop_file_unwritable'] = 1
+                res = har.call(side, 'recv_bundle_pop_file', bid, 'no-such-dir/u_%s.bin' % bid)
+                if not (isinstance(res, tuple) and len(res) == 3 and res[0] == 'error'):
+                    return
+                har.call(side, 'recv_bundle_get_queue')
             har.call(side, 'recv_bundle_pop_data', bid)
             if qop == 'popdup':
                 har.call(side, 'recv_bundle_pop_data', bid)
 
     for item in plan['sends']:
         wld.at(item['t'], do_send, item)
+    def do_listen(item):
+        import cbor2
+        (_when, interval, node_id) = item
+        extmap = {3: interval}
+        if node_id is not None:
+            extmap[4] = node_id
+        run.stats['probe.foreign_sender_listen'] = 1
+        if interval >= 2**31:
+            run.stats['probe.sender_listen_beyond_int32'] = 1
+        har.peer_send(cbor2.dumps(extmap), 'U2')
+
     for item in plan['queries']:
         wld.at(item[0], do_query, item)
+    for item in plan.get('listens', ()):
+        wld.at(item[0], do_listen, item)
     har.run_until(5 * dgram_pair.SEC)
     har.settle()
     for side in ('U1', 'U2'):
@@ -581,6 +605,9 @@ def _judge_udpcl(run, har):
                 if got != want:
                     run.viols.append(('rx-queue', 'udpcl-mismatch', 'UDPCL %s receive queue lists %s, model says %s' % (side, sorted(got), sorted(want))))
                     return
+            elif member == 'recv_bundle_pop_file':
+                if not err:
+                    popped[str(args[0])] = seq
             elif member == 'recv_bundle_pop_data':
                 bid = str(args[0])
                 known = [length for (aseq, abid, length) in announced if abid == bid and aseq < seq]
